@@ -606,6 +606,62 @@ def run_adapter_pairs(w) -> None:
         async_l.unload()
 
 
+RESERVED_VARIADIC_SOURCE = '''
+import icontract
+
+
+@icontract.ensure(lambda: HUB.cond("post", {{}}))
+{a}def star_result(*result):
+    HUB.body("star_result", {{}})
+    return 0
+
+
+@icontract.require(lambda x: HUB.cond("pre", {{"x": x}}))
+@icontract.snapshot(lambda x: HUB.capture("cap", {{"x": x}}), name="before")
+@icontract.ensure(lambda: HUB.cond("post", {{}}))
+{a}def kw_old(x, **OLD):
+    HUB.body("kw_old", {{}})
+    return x
+
+
+@icontract.ensure(lambda: HUB.cond("post", {{}}))
+{a}def kw_result(x, **result):
+    HUB.body("kw_result", {{}})
+    return x
+'''
+
+
+def run_reserved_variadic_pairs(w) -> None:
+    """A variable parameter named `result` / `OLD` on a callable with postconditions: the `async def` rendering refuses the call - or
+    does not - exactly as the `def` rendering does, whether the parameter receives anything or not."""
+    sync_l = prog.load_source(RESERVED_VARIADIC_SOURCE.format(a=""), w.scratch())
+    async_l = prog.load_source(RESERVED_VARIADIC_SOURCE.format(a="async "), w.scratch())
+    try:
+        for name, args, kwargs in (("star_result", (), {}), ("star_result", (1, 2), {}), ("kw_old", (1,), {}), ("kw_old", (1,), {"OLD": 2}),
+                                   ("kw_old", (1,), {"other": 2}), ("kw_result", (1,), {}), ("kw_result", (1,), {"result": 2})):
+            traces = []
+            for loaded in (sync_l, async_l):
+                loaded.hub.reset()
+                try:
+                    res = getattr(loaded.module, name)(*args, **kwargs)
+                    if inspect.iscoroutine(res):
+                        res = probe.drive(res)
+                    outcome = "return {!r}".format(res)
+                except BaseException as err:  # pylint: disable=broad-except
+                    outcome = "raise " + type(err).__name__
+                traces.append(([(e.kind, e.id) for e in loaded.hub.events], outcome))
+            w.count("pairs_compared")
+            w.count("reserved_variadic_pairs_compared")
+            w.count("events_compared", len(traces[0][0]))
+            w.case(("reserved-variadic-pair", name, args, tuple(sorted(kwargs))))
+            if traces[0] != traces[1]:
+                w.violation("C13/reserved-variadic-name-judged-differently-by-the-async-rendering", "{}(*{}, **{}): sync {} vs async {}".format(
+                    name, args, kwargs, traces[0], traces[1]), {"reserved_variadic_pair": name})
+    finally:
+        sync_l.unload()
+        async_l.unload()
+
+
 def specs(w):
     rng = w.rng
     thorough = w.tier == "thorough"
@@ -645,6 +701,7 @@ def run(w) -> None:
         run_nested_pairs(w)
         run_reentrant_function_pairs(w)
         run_adapter_pairs(w)
+        run_reserved_variadic_pairs(w)
     w.exhaustive = False
 
 
@@ -654,6 +711,9 @@ def replay(case, w) -> None:
         return
     if "nested_pair" in case:
         run_nested_pairs(w)
+        return
+    if "reserved_variadic_pair" in case:
+        run_reserved_variadic_pairs(w)
         return
     if "adapter_pair" in case:
         run_adapter_pairs(w)
